@@ -5,6 +5,7 @@
 (*        named schedules the shape lemmas (tags in `shape`)                                   *)
 (*  eval  [param, xs, ys]             piecewise_polynomial / the tariff rule evaluated at xs   *)
 (*        must equal Eval(parsed, x) of the preceding sched event to 1e-9 relative             *)
+(*  evalm [param, m, xs, ys]          the same with rates_multiplier = m: EvalMul(parsed, x, m) *)
 EXTENDS Schedules, TLC, Json, IOUtils
 Ev == JsonDeserialize(IOEnv.TRACE_FILE)
 OutFile == IOEnv.OUT_FILE
@@ -23,6 +24,7 @@ Verdict(e) ==
   IF e.k = "sched" THEN
      (IF ~WellFormed(e.raw) THEN {"malformed"} ELSE
         (IF ~ParsedOK(e.raw, e.parsed, Tol1e12) THEN {"parsed"} ELSE {}) \cup ShapeVerdict([e EXCEPT !.shape = {e.shape[i] : i \in 1..Len(e.shape)}]))
+  ELSE IF e.k = "evalm" THEN (IF \E i \in 1..Len(e.xs) : ~Close(e.ys[i], EvalMul(cur.parsed, e.xs[i], e.m), Tol1e9) THEN {"evalm"} ELSE {})
   ELSE IF \E i \in 1..Len(e.xs) : ~Close(e.ys[i], Eval(cur.parsed, e.xs[i]), Tol1e9) THEN {"eval"} ELSE {}
 Init == l = 1 /\ cur = [param |-> ""] /\ bad = {}
 Step == /\ l <= Len(Ev)
